@@ -2,9 +2,9 @@
    reset
    add h origin deleg|- exe(0/1) payer|- cost pgp time limit balance local -> ok|dup|quota|dquota|payer
    rm h                                                                -> 1|0
-   promote h                                                           -> 1|0
+   promote h oid                                                       -> 1|0   (oid = time-added stamp of the object: its identity)
    fill h origin deleg|- time local [h origin deleg time local ...]               -> len
-   price h payer cost pgp                                              -> ok
+   price h oid payer cost pgp                                          -> ok
    q addr [addr ...]                                                   -> quota|- cost holds  (per address, ';' separated) *)
 open Model
 open Wire
@@ -15,7 +15,7 @@ let opt_n s = if s = "-" then None else Some (n_of_hex s)
 
 let rec fill_objs = function
   | h :: o :: d :: t :: l :: rest ->
-    { hash = n_of_hex h; origin = n_of_hex o; delegator = opt_n d; executable = false; price = None; time_added = n_of_hex t; local_ = bool_of_tok l }
+    { hash = n_of_hex h; origin = n_of_hex o; delegator = opt_n d; executable = false; price = None; time_added = n_of_hex t; local_ = bool_of_tok l; oid = n_of_hex t }
     :: fill_objs rest
   | [] -> []
   | _ -> failwith "bad fill"
@@ -24,17 +24,17 @@ let handle line =
   match split_ws line with
   | ["reset"] -> st := empty_pool; "ok"
   | ["add"; h; o; d; exe; py; c; g; t; limit; bal; l] ->
-    let obj = { hash = n_of_hex h; origin = n_of_hex o; delegator = opt_n d; executable = false; price = None; time_added = n_of_hex t; local_ = bool_of_tok l } in
+    let obj = { hash = n_of_hex h; origin = n_of_hex o; delegator = opt_n d; executable = false; price = None; time_added = n_of_hex t; local_ = bool_of_tok l; oid = n_of_hex t } in
     let pr = (match opt_n py with Some p -> Some { payer = p; pcost = n_of_hex c; pgp = n_of_hex g } | None -> None) in
     let b = n_of_hex bal in
     let (p', r) = add0 !st obj (bool_of_tok exe) pr (n_of_hex limit) (fun _ -> b) in
     st := p';
     (match r with AddOk -> "ok" | AddDuplicate -> "dup" | AddQuota -> "quota" | AddDelegatorQuota -> "dquota" | AddPayer -> "payer")
   | ["rm"; h] -> let (p', r) = remove_by_hash !st (n_of_hex h) in st := p'; tok_of_bool r
-  | ["promote"; h] -> let (p', r) = promote !st (n_of_hex h) in st := p'; tok_of_bool r
+  | ["promote"; h; id] -> let (p', r) = promote !st (n_of_hex h) (n_of_hex id) in st := p'; tok_of_bool r
   | "fill" :: rest -> st := fill !st (fill_objs rest); string_of_int (int_of_nat (length !st.objs))
-  | ["price"; h; py; c; g] ->
-    st := set_pricing !st (n_of_hex h) { payer = n_of_hex py; pcost = n_of_hex c; pgp = n_of_hex g }; "ok"
+  | ["price"; h; id; py; c; g] ->
+    st := set_pricing !st (n_of_hex h) (n_of_hex id) { payer = n_of_hex py; pcost = n_of_hex c; pgp = n_of_hex g }; "ok"
   | "wash" :: limit :: rest ->
     (* wash LIMIT h:blocked:outlived:verdict ... | payer=energy ...   verdict = E<class> | N | Y | Y,payer,cost,pgp
        the model pool is NOT advanced (the harness replays the observed transitions afterwards) *)
